@@ -265,6 +265,13 @@ fn main() {
             }
         }
     });
+    // the session-starting constructors keep the serial they are given (their session id comes from the clock)
+    for &x in serials.iter().step_by(97) {
+        sp.eval();
+        if State::new_with_serial(Serial(x)).serial() != Serial(x) { ctx.fail("C16.state.new_with_serial", format!("serial={x:#x}"), "serial not kept") }
+    }
+    sp.eval();
+    if State::new().serial() != Serial(0) || State::default().serial() != Serial(0) || Serial::default() != Serial(0) { ctx.fail("C16.state.new", "State::new()", "initial serial is not 0") }
     sp.nontrivial(nt.load(std::sync::atomic::Ordering::Relaxed));
     sp.outcomes_n("v0-end-of-data-12-octets", serials.len() as u64); sp.outcomes_n("v1v2-end-of-data-24-octets", 2 * serials.len() as u64);
     sp.sample_str(|| format!("{} serials x 3 versions x 4 PDU kinds", serials.len()));
